@@ -28,3 +28,9 @@ let rec string_of_z z =
       let q = Z.div z ten and r = Z.modulo z ten in go q (string_of_int (int_of_z r) ^ acc) in
     go z ""
 let bool_s b = if b then "1" else "0"
+let hex_of_z width z =
+  let sixteen = z_of_int 16 in
+  let rec go z acc = match z with Z0 -> acc | _ -> go (Z.div z sixteen) (Printf.sprintf "%x" (int_of_z (Z.modulo z sixteen)) ^ acc) in
+  let s = go z "" in
+  if String.length s >= width then s else String.make (width - String.length s) '0' ^ s
+let zhex s = z_of_string ("0x" ^ s)
